@@ -154,7 +154,8 @@ pub struct C12Family {
 const INDENT_KINDS: usize = 7;
 const CONTENTS: [&str; 5] = ["a", "a  ", "''", "'''", ""];
 // (the last two are not blanks for Delphi: a literal closed behind them breaks the indentation rule)
-const BASES: [&str; 8] = ["", "  ", "    ", "\t", "\u{3000}", " \t", "\u{a0}\u{a0}", " \u{2003}"];
+// ("      " is where the default configuration puts a literal that follows `x :=` on its own line)
+const BASES: [&str; 9] = ["", "  ", "    ", "\t", "\u{3000}", " \t", "\u{a0}\u{a0}", " \u{2003}", "      "];
 const TERMS: usize = 5;
 const AFTERS: [&str; 3] = [";", ".Trim;", " + 'x';"];
 pub const C12_POSITIONS: usize = 11;
@@ -291,7 +292,7 @@ impl C12Family {
 impl Family for C12Family {
     fn name(&self) -> String {
         format!(
-            "c12:literals(lines<={},quotes={:?},bases=8,terminator-patterns=5,positions={:?},afters=3)x{}cfg",
+            "c12:literals(lines<={},quotes={:?},bases=9,terminator-patterns=5,positions={:?},afters=3)x{}cfg",
             self.max_lines,
             self.quotes,
             self.positions,
